@@ -5,35 +5,68 @@ import re
 from vf import core
 from vf.core import Suite, coq_hex, coq_N
 from vf.gen import rbytes, pick_weighted, GRID
-from props import C34, C35
+from props import C34, C35, C10, C06, C04
+from props import C53gen as G
 
 ID = "C53"
 THEOREMS = ["C53_pktline_total", "C53_pktline_no_oob", "C53_sideband_total", "C53_packp_lines_bound", "C53_advrefs_alloc",
-            "C53_leb128_total_no_oob", "C53_varint_consumed"]
-MODEL_FILES = ["PktLine.v", "Sideband.v", "Packp.v", "C53Varint.v"]
-LEVEL_TEXT = ("PARTIAL: Coq theorems (" + ", ".join(THEOREMS) + ") prove, for ALL inputs, termination within the stated fuel, in-range "
-              "slice indices and input-proportional allocation of the decoders modelled by this batch (pkt-line Read/Scanner, sideband "
-              "Demuxer/Muxer, LEB128 and entry-size varints, the line source of every packp v0 decoder, AdvRefs reference/shallow counts); "
-              "every other decoder (all 46 repository Fuzz* entry points, 44 mirrored) is only exercised: run on seeds, mutated seeds, "
-              "cross-fed seeds and random bytes under recover, a deadline and an allocation budget")
+            "C53_leb128_total_no_oob", "C53_varint_consumed",
+            "C53_idx_total", "C53_idx_no_oob", "C53_idx_alloc", "C53_revfile_alloc",
+            "C53_delta_total", "C53_delta_no_oob", "C53_delta_alloc",
+            "C53_tree_total", "C53_tree_no_oob", "C53_tree_alloc",
+            "C53_index_total", "C53_index_no_oob", "C53_index_alloc",
+            "C53_pack_total", "C53_pack_visit_total", "C53_pack_no_oob", "C53_pack_alloc",
+            "C53_wild_total", "C53_wild_no_oob",
+            "C53_rev_total", "C53_rev_no_oob", "C53_rev_alloc",
+            "C53_graph_total", "C53_graph_no_oob", "C53_graph_alloc",
+            "C53_objfile_total", "C53_objfile_no_oob",
+            "C53_lines_total", "C53_ident_no_oob", "C53_ident_alloc", "C53_reflog_alloc"]
+MODEL_FILES = ["PktLine.v", "Sideband.v", "Packp.v", "C53Varint.v", "PackBytes.v", "Idx.v"]
+LEVEL_TEXT = ("PARTIAL: Coq theorems (" + ", ".join(THEOREMS) + ") prove, for ALL inputs, termination within the stated fuel "
+              "(or, where a model merges fuel exhaustion with a rejection, that more fuel never changes the answer), in-range slice / "
+              "index expressions under the code's own checks (a boundary index equal to the table length is rejected, not read) and "
+              "input-proportional allocation for: pkt-line Read/Scanner, sideband Demuxer/Muxer, LEB128 and entry-size varints, the line "
+              "source of every packp v0 decoder, AdvRefs counts, the idx/rev readers (MemoryIndex, LazyIndex, mmap.PackScanner, "
+              "Decoder.Decode), the three delta appliers, Tree.Decode, the index (DIRC) decoder with its TREE/REUC/EOIE extensions, the "
+              "pack scanner, delta command loop and depth-first delta resolution, wildmatch, the revision parser, the commit-graph file reader, the loose-object "
+              "header, the commit/tag line scanner with Signature.Decode and reflog.Decode — on the models of those decoders written for C01 C02 C04 "
+              "C06 C08 C10 C12 C47 C49 C51 (imported, never copied).  Every other piece of decoding code (all 46 repository Fuzz* entry "
+              "points, 44 mirrored, plus 7 decode-then-every-lookup targets) is exercised: seeds, mutated / cross-fed seeds, random "
+              "bytes AND structurally valid files with every length / offset / count field on {0, max-1, max, max+1}, under recover, a "
+              "deadline and an allocation budget")
 MODELLED = ("plumbing/format/packfile/util: DecodeLEB128, DecodeLEB128FromReader, VariableLengthSize (Model/C53Varint.v, constants by gotrans); "
-            "pkt-line, sideband and the packp v0 decoders through the C34/C35 models. Not modelled (exercised only): object, objfile, packfile "
-            "parser/scanner/delta, idxfile, revfile, index, commitgraph, config (gcfg), gitignore, reflog, revision parser, URL parser, "
-            "protocol v2 messages, zlib, bufio; x/plumbing/worktree FuzzAdd/FuzzOpen are not mirrored (they need the fixtures module)")
+            "pkt-line, sideband and the packp v0 decoders through the C34/C35 models; through the models of other properties: idxfile "
+            "MemoryIndex / LazyIndex / Decoder, mmap.PackScanner, revfile (Model/Idx.v — impl = model re-checked here on the idx boundary "
+            "family through harness/cmd/c10), patchDelta / ReaderFromDelta / patchDeltaWriter (Model/Delta.v), Tree.Decode (Model/TreeObj.v), "
+            "index.Decoder (Model/IndexFile.v), packfile Scanner / parser bookkeeping / delta command loop (Model/PackParse.v), wildmatch "
+            "(Model/Gitignore.v), internal/revision parser (Model/Revision.v), commitgraph fileIndex (Model/CommitGraph.v), objfile.Reader.Header "
+            "(Model/ObjFile.v), the commit/tag line scanner and Signature.Decode (Model/ObjLines.v, Model/Ident.v), reflog.Decode (Model/Reflog.v), the parser's depth-first delta resolution (visit). Not modelled / no theorem "
+            "(exercised only): packfile.Packfile read paths, refname, "
+            "capability lists and protocol v2 messages, config (gcfg), URL parser, zlib, bufio; x/plumbing/worktree FuzzAdd/FuzzOpen are not "
+            "mirrored (they need the fixtures module)")
 TRUSTED = [
     "C-impl: harness/cmd/c53 varint entry points vs Model/C53Varint.v; harness/cmd/c34 and c35 on malformed streams vs Model/PktLine.v, Model/Packp.v",
+    "C-impl (boundary): harness/cmd/c10 (MemoryIndex, LazyIndex, PackScanner) vs Model/Idx.v on the idx/rev boundary family of props/C53gen.py",
+    "exercise: harness/cmd/c53 lookups.go drives every accessor of a decoded idx / pack / index / commit-graph / object / delta with the names, "
+    "offsets and indices found in the input, their neighbours and the values at and one past each table's length; props/C53gen.py builds the files "
+    "(python struct/zlib/hashlib: git's documented layouts, checksums recomputed)",
     "exercise: harness/cmd/c53 mirrors the bodies of the repository's Fuzz* functions (call list checked against `func Fuzz` in the working tree on every run) and runs them under recover, a per-input deadline and a runtime.MemStats allocation budget",
 ]
 ASSUMPTIONS = ["a panic in a goroutine started by library code, or a runtime fatal error, kills the harness process and is reported as a missing reply",
-               "allocation is measured as the TotalAlloc delta of a single-threaded run; budget = 48 MiB + 2 KiB per input byte",
+               "allocation is measured as the TotalAlloc delta of a single-threaded run; budget = 48 MiB + 2 KiB per input byte "
+               "(+ 2 MiB per API call for the decode-then-every-lookup targets, which make hundreds of calls on one input)",
                "a decoder that needs more than the deadline (20 s) on an input of a few KiB is reported as a hang"]
-RULE = ("case = (Fuzz* entry point, arguments) from the f.Add seeds of the repository, their mutations (truncation at every third byte, bit "
+RULE = ("boundary cases = structurally valid idx/rev, pack (+ idx over it), delta, index v2-v4, commit-graph, loose object, tree, commit/tag/"
+        "reflog, pkt-line / packp / sideband inputs in which ONE length / offset / count / index field takes {0, max-1, max, max+1} (and the "
+        "integer-width limits) relative to the real size of the table or buffer it refers to, each run through the format's fuzz entry point and "
+        "through the decode-then-every-lookup target; fuzz cases = (Fuzz* entry point, arguments) from the f.Add seeds of the repository, their mutations (truncation at every third byte, bit "
         "flips, byte insertion, length-field grids, duplication), seeds of other targets, and random bytes; varint cases: all continuation "
         "patterns up to 11 bytes; framing cases: the malformed buckets of C34/C35; non-trivial = non-empty input; distinct by content")
 
 DEADLINE_MS = 20000
 BUDGET_BASE = 48 << 20
 BUDGET_PER_BYTE = 2048
+BUDGET_PER_CALL = 2 << 20      # "decode, then every lookup" targets: each API call may inflate a whole delta chain (<= 50 zlib readers)
 
 
 def repo_fuzz_targets():
@@ -140,7 +173,7 @@ class Fuzz(Suite):
             n = sum(len(a) // 2 for a in c.get("args") or [])
             if r["out"] != "done":
                 fails[c["id"]] = "%s on %s: %s" % (r["out"], c["target"], (ex.get("panic") or "")[:300])
-            elif ex.get("alloc", 0) > BUDGET_BASE + BUDGET_PER_BYTE * n:
+            elif ex.get("alloc", 0) > BUDGET_BASE + BUDGET_PER_BYTE * n + BUDGET_PER_CALL * ex.get("calls", 0):
                 fails[c["id"]] = "%s allocated %d bytes on %d input bytes" % (c["target"], ex.get("alloc"), n)
         return fails
 
@@ -271,4 +304,161 @@ class Messages(C35.Msgs):
         return {}
 
 
-SUITES = [Fuzz(), Varint(), Framing(), Messages()]
+class Boundary(Fuzz):
+    """structurally VALID files of every binary format with each length / offset / count / index field on the values
+    {0, max-1, max, max+1} relative to the real size of what it refers to (props/C53gen.py), run through the fuzz entry
+    point of the format AND through the "decode, then every lookup API" targets of harness/cmd/c53/lookups.go.
+    The whole family is enumerated in both tiers (n is ignored); oracle as for the fuzz suite."""
+    name = "boundary"
+    go_cmd = "c53"
+    quick_n = 0
+    thorough_n = 0
+
+    def gen(self, rng, n, tier):
+        cases = []
+
+        def add(bucket, target, args):
+            cases.append({"bucket": bucket, "target": target, "args": [a.hex() for a in args], "deadline_ms": DEADLINE_MS})
+        for b, idx, rev, hs in G.idx_cases(rng, tier):
+            add(b, "verif/idx.Lookups", [idx, rev, bytes([hs])])
+            if hs == 20:
+                add(b, "plumbing/format/idxfile.FuzzMemoryIndex", [idx])
+                add(b, "plumbing/format/idxfile.FuzzLazyIndex", [idx, rev])
+                if b.startswith("rev-") or b == "idx-valid":
+                    add(b, "plumbing/format/revfile.FuzzDecode", [rev])
+        for b, pack, idx in G.pack_cases(rng, tier):
+            add(b, "verif/pack.Lookups", [pack, idx, bytes([20])])
+            if not idx:
+                add(b, "plumbing/format/packfile.FuzzParser", [pack])
+                add(b, "plumbing/format/packfile.FuzzScanner", [pack])
+        for b, src, d in G.delta_cases(rng, tier):
+            add(b, "verif/delta.Appliers", [src, d])
+            add(b, "plumbing/format/packfile.FuzzPatchDelta", [src, d])
+        for b, data in G.index_cases(rng, tier):
+            add(b, "verif/index.Lookups", [data, bytes([20])])
+            add(b, "plumbing/format/index.FuzzDecoder", [data])
+        for b, data in G.cg_cases(rng, tier):
+            add(b, "verif/commitgraph.Lookups", [data])
+            add(b, "plumbing/format/commitgraph.FuzzOpenFileIndex", [data])
+        for b, data in G.objfile_cases(rng, tier):
+            add(b, "plumbing/format/objfile.FuzzReader", [data])
+        for b, data in G.tree_cases(rng, tier):
+            add(b, "verif/object.Lookups", [bytes([1]), data])
+            add(b, "plumbing/object.FuzzTreeDecode", [data])
+        for b, kind, data in G.ident_cases(rng, tier):
+            if kind is None:
+                add(b, "plumbing/format/reflog.FuzzDecode", [data])
+            else:
+                add(b, "verif/object.Lookups", [bytes([kind]), data])
+                add(b, "plumbing/object.FuzzCommitDecode" if kind == 0 else "plumbing/object.FuzzTagDecode", [data])
+        for b, t, args in G.pkt_cases(rng, tier):
+            add(b, t, args)
+        return cases
+
+    def extra(self, ctx, cases, impl, model):
+        # which decoders ACCEPTED their boundary files (a family whose valid member is rejected has a broken builder)
+        acc, per = {}, {}
+        for c in cases:
+            r = impl.get(c["id"]) or {}
+            m = ((r.get("extra") or {}).get("marks")) or {}
+            fam = c["bucket"].split("-")[0]
+            per[fam] = per.get(fam, 0) + 1
+            if m:
+                acc[fam] = acc.get(fam, 0) + 1
+            if c["bucket"].endswith("-valid") and c["target"].startswith("verif/") and not m:
+                ctx.notes.append("boundary builder: the %s file of target %s was not accepted by its decoder" % (c["bucket"], c["target"]))
+        return {"boundary_cases_by_family": per, "boundary_cases_accepted_by_a_decoder": acc}
+
+
+class IdxModel(C10.File):
+    """the idx / rev boundary family once more through harness/cmd/c10 and Model/Idx.v (impl = model on every reader,
+    C10's oracle): ties the C53_idx_* theorems to the code on exactly the inputs where an off-by-one would show"""
+    name = "idxmodel"
+    quick_n = 0
+    thorough_n = 0
+    coq_chunk = 12
+
+    def gen(self, rng, n, tier):
+        cases = []
+        for b, idx, rev, hs in G.idx_cases(rng, tier):
+            if tier == "quick" and b not in ("idx-o64-slot", "idx-o64-table-len", "idx-valid", "rev-position"):
+                continue
+            lay = C10.layout(idx, hs)
+            ents = [(t[0], t[1] if t[1] is not None else 0, t[2]) for t in lay["tab"]] if lay else []
+            qs = [{"q": "offset", "h": e[0].hex()} for e in ents] + [{"q": "crc", "h": e[0].hex()} for e in ents[:2]]
+            qs += [{"q": "findhash", "o": str(e[1])} for e in ents[:3]]
+            qs += [{"q": "entries"}, {"q": "count"}, {"q": "prefix", "p": ents[0][0][:1].hex() if ents else ""}]
+            if len({e[1] for e in ents}) == len(ents):
+                # with two entries on one offset (a slot referenced twice) the order inside the run is the rev file's for LazyIndex
+                # and sort.Sort's for MemoryIndex; harness/cmd/c10 canonicalises it, Model/Idx.v does not: not compared
+                qs.append({"q": "byoffset"})
+            pack = idx[-2 * hs:-hs]
+            cases.append({"bucket": b, "kind": "file", "hs": hs, "idx": idx.hex(), "rev": rev.hex(), "pack": pack.hex(), "queries": qs})
+        return cases
+
+    def nontrivial(self, c):
+        return True
+
+    def oracle(self, ctx, cases, impl, model):
+        """C10's oracle; a failure inside one of C10's OWN known-finding classes (e.g. LazyIndex never checks the idx size) is a
+        matter of C10, reported there: it is not a crash, hang or over-allocation"""
+        fails = C10.File.oracle(self, ctx, cases, impl, model)
+        known10, _ = core.load_known("C10")
+        byid = {c["id"]: c for c in cases}
+        return {i: why for i, why in fails.items()
+                if C10.File.finding_class(self, byid[i], why, impl.get(i)) not in known10}
+
+    def finding_class(self, case, reason, reply):
+        return None
+
+
+def _panic_only(cases, impl):
+    return {c["id"]: "no reply / panic" for c in cases if impl.get(c["id"]) is None or impl[c["id"]].get("panic")}
+
+
+class DeltaModel(C06.Apply):
+    """the delta boundary family through harness/cmd/c06 (all five appliers) and Model/Delta.v: impl = model ties the
+    C53_delta_* theorems to the code on the copy/insert ranges that end at, one before and one past their buffers"""
+    name = "deltamodel"
+    coq_imports = "From GoGit Require Import Model.Delta."
+    quick_n = 0
+    thorough_n = 0
+
+    def gen(self, rng, n, tier):
+        cases = []
+        for b, src, d in G.delta_cases(rng, "quick"):
+            if len(src) <= 300:
+                cases.append({"bucket": b, "kind": "apply", "src": C06.D.seg(src), "delta": C06.D.seg(d), "chunk": 0})
+        return cases
+
+    def oracle(self, ctx, cases, impl, model):
+        return _panic_only(cases, impl)
+
+    def finding_class(self, case, reason, reply):
+        return None
+
+    def extra(self, ctx, cases, impl, model):
+        return {}
+
+
+class TreeModel(C04.Main):
+    """the tree boundary family through harness/cmd/c04 and Model/TreeObj.v (Tree.Decode)"""
+    name = "treemodel"
+    coq_imports = "From GoGit Require Import Model.TreeObj."     # only files of the C53 closure (Spec/GitTree.v is not)
+    quick_n = 0
+    thorough_n = 0
+
+    def gen(self, rng, n, tier):
+        return [{"bucket": b, "op": "dec", "raw": data.hex()} for b, data in G.tree_cases(rng, tier)]
+
+    def oracle(self, ctx, cases, impl, model):
+        return _panic_only(cases, impl)
+
+    def finding_class(self, case, reason, reply):
+        return None
+
+    def extra(self, ctx, cases, impl, model):
+        return {}
+
+
+SUITES = [Fuzz(), Boundary(), IdxModel(), DeltaModel(), TreeModel(), Varint(), Framing(), Messages()]
